@@ -209,3 +209,49 @@ def with_binary(fn):
 
 for _p in BIN_PROPS:
     REGISTRY[_p] = with_binary(REGISTRY[_p])
+
+# facts observed by truly concurrent clients (harness/concprobe, RowsLock.tla) that must hold for every interleaving
+CONC_PROPS = {"C01", "C05", "C11", "C16"}
+
+
+def with_conc(fn):
+    def wrapped(pid, tier, replay):
+        rc = fn(pid, tier, replay)
+        if replay or rc == 2:
+            return rc
+        t0 = time.time()
+        res = domain.conc_engine(tier)
+        mine = [r for r in res["fact_rows"] if r.get("prop") == pid]
+        bad = [(n, r) for n, r in res["viols"] if n.startswith(pid + "_")]
+        ep = os.path.join(EVID, pid + ".json")
+        ev = json.load(open(ep))
+        ev["coverage"]["concurrent_facts"] = {"distinct": len(mine), "observations": sum(r.get("n", 0) for r in mine), "failed": len(bad),
+                                              "sample": mine[:2], "how": "8 concurrent clients against one runner (-race build); order of the critical "
+                                              "sections from the lock probes; rows validated by TLC (RowsLock.tla)"}
+        ev["violations"] = ev.get("violations", 0) + len(bad)
+        ev["wall_s"] = round(ev.get("wall_s", 0) + (time.time() - t0), 2)
+        json.dump(ev, open(ep, "w"), indent=1)
+        n0 = len([f for f in os.listdir(os.path.join(EVID, "replay")) if f.startswith(pid + "-")]) if os.path.isdir(os.path.join(EVID, "replay")) else 0
+        seen = set()
+        for name, r in bad:
+            desc = "formula=%s %s pipeline=%s a=%s b=%s" % (name, r.get("what"), r.get("p"), r.get("a"), r.get("b"))
+            keyd = (name, r.get("what"))
+            if keyd in seen:
+                continue
+            seen.add(keyd)
+            k = known_match(pid, desc)
+            if k:
+                print("KNOWN-FINDING: property=%s %s" % (pid, k.get("description", desc)))
+                continue
+            os.makedirs(os.path.join(EVID, "replay"), exist_ok=True)
+            path = os.path.join(EVID, "replay", "%s-%d.json" % (pid, n0 + len(seen)))
+            json.dump({"property": pid, "engine": "conc", "formula": name, "row": r, "desc": desc, "seed": seed()}, open(path, "w"), indent=1)
+            print("VIOLATION property=%s replay=%s" % (pid, path))
+            log("  " + desc[:300])
+            rc = 1
+        return rc
+    return wrapped
+
+
+for _p in CONC_PROPS:
+    REGISTRY[_p] = with_conc(REGISTRY[_p])
